@@ -35,6 +35,9 @@ def perm(run, f, loop_form):
 
 def check(run):
     repo = run.repo
+    # density_matrix enumerates the stabilizer group through binary_repr (all 2^(N-r) selectors, every bit column)
+    from .C19 import bits_rule
+    bits_rule(run, repo)
     types = K.types_of(repo)
     for rel, loop_form in ((K.PY_U, True), (K.TC_U, False)):
         m2s, s2m = repo.func(rel, 'map_to_state'), repo.func(rel, 'state_to_map')
